@@ -40,6 +40,12 @@ def oracle_case(rng):
     what = f'{"two" if two else "single"}-site TDVP, L={L}, D={D0}, dt={dt}, numsteps={numsteps}, numiter={numiter}'
     try:
         for rep in range(2):   # repeated calls on the same state
+            if rep == 1 and L >= 2 and rng.random() < 0.5:
+                # ... with a tiny in-place rescaling of one tensor in between (the state left by the first call is canonical; a
+                # nearly canonical state must still be normalised properly: seeded change C08-i)
+                j = int(rng.integers(1, L))
+                psi.A[j] = psi.A[j] * (1 + float(rng.choice([4e-6, 1e-7, 3e-3])))
+                what += f', tensor {j} rescaled between the calls'
             nin = np.linalg.norm(dense_mps(psi))
             if two:
                 r = ptn.integrate_local_twosite(H, psi, dt, numsteps, numiter_lanczos=numiter, tol_split=0)
